@@ -585,7 +585,7 @@ Section Master.
         * rewrite (open_collection fs ep n fi S D). reflexivity.
         * destruct (fs_open fs (resolve_href ep n)) as [b|e] eqn:O.
           -- rewrite (open_bytes fs ep n fi b S D O).
-             destruct (Z.eqb (i_size fi) (Z.of_N (strlen b))); [apply outcome_eqb_refl|reflexivity].
+             destruct (Z.eqb (i_size fi) (Z.of_N (strlen b)) && header_safe (i_mime fi)); [apply outcome_eqb_refl|reflexivity].
           -- destruct (wf_code e) eqn:W.
              ++ rewrite (open_error fs ep n fi e S D O W). reflexivity.
              ++ now destruct (client_open fs ep n).
